@@ -70,7 +70,11 @@ def _compute_constant_value_of_constant_reference(expression, ir):
     expression = ir_data_utils.builder(expression)
     if isinstance(referred_object, ir_data.EnumValue):
         compute_constraints_of_expression(referred_object.value, ir)
-        assert ir_util.is_constant(referred_object.value)
+        if not ir_util.is_constant(referred_object.value):
+            # The enum value is a static reference to a non-constant field.  It
+            # is reported by constraints.check_constraints; until then, this
+            # reference has no known value.
+            return
         new_value = str(ir_util.constant_value(referred_object.value))
         expression.type.enumeration.value = new_value
     elif isinstance(referred_object, ir_data.Field):
